@@ -155,3 +155,92 @@ Proof.
         destruct (Hword lz Hz) as ((c & r & Ec & _) & _). rewrite <- app_assoc. f_equal. apply app_removelast_last. rewrite Ec. discriminate. }
     destruct G as (a0 & x0 & G). rewrite G in E. destruct a0; discriminate.
 Qed.
+
+(* ---------- a rendering made of solid blocks splits back into exactly those blocks ---------- *)
+
+From DI Require Import Email.
+
+(* no empty line inside: never two line feeds in a row *)
+Fixpoint no_dlf (s : str) : Prop :=
+  match s with
+  | 10 :: ((10 :: _) as t) => False
+  | _ :: t => no_dlf t
+  | [] => True
+  end.
+
+Definition solid_block (s : str) : Prop :=
+  no_dlf s /\ (exists c r, s = c :: r /\ c <> 10 /\ is_blank_tab c = false) /\ (exists a x, s = a ++ [x] /\ x <> 10).
+
+Lemma no_dlf_tail c s : no_dlf (c :: s) -> no_dlf s.
+Proof. destruct c as [|p]; [now destruct s|]. destruct s as [|d s']; [intros; exact I|]. cbn [no_dlf]. repeat (destruct p as [p|p|]; try tauto). destruct d as [|q]; [tauto|]. repeat (destruct q as [q|q|]; try tauto). Qed.
+
+Lemma no_dlf_10_10 s : ~ no_dlf (10 :: 10 :: s).
+Proof. cbn. tauto. Qed.
+
+(* inside a block the scanner only accumulates *)
+Lemma block_run s : forall cur pn rest, no_dlf s -> (pn = true -> match s with 10 :: _ => False | _ => True end) ->
+  split_paras_aux cur pn false [] (s ++ rest) =
+  split_paras_aux (rev s ++ cur) (match rev s with 10 :: _ => true | [] => pn | _ => false end) false [] rest.
+Proof.
+  induction s as [|c s IH]; intros cur pn rest Hn Hpn; [reflexivity|]. cbn [app split_paras_aux].
+  assert (E : (c =? 10) && pn = false).
+  { destruct (N.eqb_spec c 10) as [->|]; [|reflexivity]. destruct pn; [exfalso; now apply Hpn|reflexivity]. }
+  rewrite E. rewrite IH.
+  - cbn [rev]. rewrite <- app_assoc. f_equal.
+    destruct (rev s) as [|x r] eqn:Er; cbn [app]; [|reflexivity].
+    destruct (N.eqb_spec c 10) as [->|Hc]; [reflexivity|]. destruct c as [|p]; [reflexivity|]. repeat (destruct p as [p|p|]; try reflexivity). contradiction.
+  - now apply no_dlf_tail in Hn.
+  - intros Hc. apply N.eqb_eq in Hc. subst c. destruct s as [|d s']; [exact I|]. destruct d as [|q]; [exact I|].
+    repeat (destruct q as [q|q|]; try exact I). exfalso. now apply (no_dlf_10_10 s').
+Qed.
+
+Lemma rev_last_not10 (s a : str) x : s = a ++ [x] -> x <> 10 -> match rev s with 10 :: _ => true | [] => false | _ => false end = false.
+Proof. intros -> Hx. rewrite rev_app_distr. cbn [rev app]. destruct x as [|p]; [reflexivity|]. repeat (destruct p as [p|p|]; try reflexivity). contradiction. Qed.
+
+Fixpoint blocks_pieces (bs : list str) : list str :=
+  match bs with
+  | [] => []
+  | [b] => [b ++ [10]]
+  | b :: bs' => b :: blocks_pieces bs'
+  end.
+
+Theorem split_solid_blocks bs : Forall solid_block bs -> forall b0,
+  split_paras_aux [] false b0 [] (join [10; 10] bs ++ [10]) = match bs with [] => (if b0 then [] else [[10]]) | _ => blocks_pieces bs end.
+Proof.
+  induction 1 as [|s bs (Hn & (c & r & Es & Hc & Hb) & (a & x & Ea & Hx)) Hrest IH]; intros b0.
+  - destruct b0; reflexivity.
+  - (* entering the block: from the start or from a separator, the first character opens the piece *)
+    assert (Hflag : match rev r with 10 :: _ => true | _ => false end = false).
+    { destruct r as [|r0 r1]; [reflexivity|]. destruct (exists_last (l := r0 :: r1)) as (r' & z & E); [discriminate|].
+      rewrite E in *. rewrite Es in Ea. change (c :: r' ++ [z]) with ((c :: r') ++ [z]) in Ea. apply app_inj_tail in Ea as [_ ->].
+      rewrite rev_app_distr. cbn [rev app]. destruct x as [|p]; [reflexivity|]. repeat (destruct p as [p|p|]; try reflexivity). contradiction. }
+    assert (Henter : forall rest, split_paras_aux [] false b0 [] (s ++ rest) = split_paras_aux (rev s) false false [] rest).
+    { intros rest. rewrite Es. cbn [app split_paras_aux]. pose proof Hc as Hc'. apply N.eqb_neq in Hc'. destruct b0.
+      - rewrite Hc', Hb. rewrite block_run; [| rewrite Es in Hn; now apply no_dlf_tail in Hn|discriminate].
+        cbn [rev]. f_equal. destruct (rev r) as [|y0 t0]; [reflexivity|exact Hflag].
+      - rewrite Hc'. cbn [andb]. rewrite block_run; [| rewrite Es in Hn; now apply no_dlf_tail in Hn|discriminate].
+        cbn [rev]. f_equal. destruct (rev r) as [|y0 t0]; [reflexivity|exact Hflag]. }
+    assert (Hrs : exists y t, rev s = y :: t /\ y <> 10).
+    { rewrite Ea, rev_app_distr. cbn [rev app]. now exists x, (rev a). }
+    destruct Hrs as (y & t & Ers & Hy).
+    destruct bs as [|s2 bs'].
+    + cbn [join blocks_pieces]. rewrite Henter. cbn [split_paras_aux]. cbn [andb]. rewrite andb_false_r. cbn [split_paras_aux].
+      cbn [rev]. now rewrite rev_involutive.
+    + rewrite join_cons. rewrite <- !app_assoc. rewrite Henter.
+      change ([10; 10] ++ join [10; 10] (s2 :: bs') ++ [10]) with (10 :: 10 :: (join [10; 10] (s2 :: bs') ++ [10])).
+      cbn [split_paras_aux]. rewrite andb_false_r. change (10 =? 10) with true. cbn [andb tl]. rewrite Ers.
+      rewrite (IH true). cbn [blocks_pieces]. f_equal. rewrite <- Ers. apply rev_involutive.
+Qed.
+
+(* the rendering of a document whose paragraph renderings are solid splits back into exactly
+   as many paragraphs *)
+Corollary doc_dumps_splits ps : Forall solid_block (map para_dumps ps) -> ps <> [] ->
+  split_in_paragraphs (doc_dumps ps) = blocks_pieces (map para_dumps ps) /\
+  length (split_in_paragraphs (doc_dumps ps)) = length ps.
+Proof.
+  intros Hs Hne. unfold split_in_paragraphs, doc_dumps. rewrite (split_solid_blocks _ Hs false).
+  destruct ps as [|p ps']; [contradiction|]. cbn [map]. split; [reflexivity|].
+  assert (G : forall l : list str, length (blocks_pieces l) = length l).
+  { induction l as [|b [|b2 l'] IHl]; [reflexivity|reflexivity|]. change (blocks_pieces (b :: b2 :: l')) with (b :: blocks_pieces (b2 :: l')). cbn [length]. now rewrite IHl. }
+  rewrite G. cbn [length]. now rewrite map_length.
+Qed.
